@@ -1167,7 +1167,7 @@ class Program:
             self.inlined += [(c, [f]) for c, f in normalize.inline_local_closure_calls(crates, table)]
             for d in crates:
                 for fd in d['fns']:
-                    if fd.get('desugared'):
+                    if fd.get('desugared') or fd.get('inlined'):
                         normalize.thread_const_bool_gotos(fd)
                     if fd.get('inlined'):
                         normalize.thread_bool_returns(fd)
